@@ -250,7 +250,8 @@ func extCount(fr *frame, args []value) value {
 	ct := i.termOf(args[1])
 	sum := st.Const(64, 0)
 	for _, h := range hay {
-		sum = st.Bin(OpAdd, sum, st.Ite(st.Eq(i.termOf(h), ct), st.Const(64, 1), st.Const(64, 0)))
+		c := i.eng.simplifyCond(st.Eq(i.termOf(h), ct))
+		sum = st.Bin(OpAdd, sum, st.Ite(c, st.Const(64, 1), st.Const(64, 0)))
 	}
 	return valueOf(sum, types.Int)
 }
